@@ -273,6 +273,29 @@ pub fn c12(o: &Opts) -> Outcome {
             }
         }
     }
+    // many records (more than any per-batch record limit), one and many workers: row r belongs to record r
+    {
+        let recs: Vec<Vec<u8>> = (0..2300).map(|i| { let l = 2 + (i * 5 % 17) as usize; (0..l).map(|j| b"ACGT"[(i + j * j + i / 3) % 4]).collect() }).collect();
+        for threads in [1usize, 16] {
+            cases += recs.len() as u64;
+            if let Some(mut w) = c12_batch(&recs, 2, 8, false, threads) {
+                for kv in w.iter_mut() { if kv.0 == "seq" { kv.1 = "<one of 2300 short records>".into(); } }
+                return Outcome { cases, witness: Some(w) };
+            }
+        }
+    }
+    // a record longer than 2^20 bases (beyond any internal slice size), mixed content
+    {
+        let long: Vec<u8> = (0..((1usize << 20) + 500)).map(|i| b"ACGGTCATTGACCAGT"[(i * 7 + i / 13) % 16]).collect();
+        let recs: Vec<Vec<u8>> = vec![b"ACGTACGT".to_vec(), long, b"GGGTTT".to_vec()];
+        for norm in [false, true] {
+            cases += 3;
+            if let Some(mut w) = c12_batch(&recs, 3, 8, norm, 4) {
+                for kv in w.iter_mut() { if kv.0 == "seq" && kv.1.len() > 200 { kv.1 = "<2^20+500 bases: ACGGTCATTGACCAGT[(i*7 + i/13) % 16]>".into(); } }
+                return Outcome { cases, witness: Some(w) };
+            }
+        }
+    }
     // records of exactly k, k+1 and k-1 bases, also between ambiguous bytes
     for k in [3usize, 5] {
         let base: Vec<u8> = (0..k + 1).map(|i| b"ACGGTCATTG"[i % 10]).collect();
